@@ -415,6 +415,38 @@ ADDED3 = {
 }
 
 
+ADDED4 = {
+    "C01": "Round 4: replace_handler (only registrations with equal kwargs are replaced), remove_handler (every "
+           "registration of the method), add_handler files and keys by the PARSED event name, "
+           "get_event_and_condition_from_string (first dot, int() of the suffix, negative priorities; strings via cvc5).",
+    "C02": "Round 4: the event string parser (C01p) re-checked.",
+    "C03": "Round 4: add_switch_handler_obj AK1 (the returned key names the callback as registered).",
+    "C04": "Round 4: BallController._balance_playfields (bounded: two playfields).",
+    "C05": "Round 4: BallSave.device_removed_from_mode (saved balls still requested), Multiball.start (locks asked for "
+           "at most their available balls; bounded: 2 locks).",
+    "C07": "Round 4: add_handler / remove_handler_by_key (C01: the key names the list the handler is filed under) "
+           "re-checked; L5: a delayed control event is a NEW delay.",
+    "C08": "Round 4: CoilPlayer.play (entries reach Driver.pulse / enable unchanged; bounded: one entry).",
+    "C10": "Round 4: add_switch_handler_obj AK1 (C03) re-checked, DeviceManager.create_machinewide_device_control_events "
+           "(undelayed control events are the device methods themselves; bounded: 2 events).",
+    "C11": "Round 4: VariablePlayer._set_variable (the addressed player; bounded: 3 players), Timer.ticks setter (tick "
+           "variable written for the current player).",
+    "C12": "Round 4: Util.string_to_list / string_to_event_list for non-string items, "
+           "ConfigValidator.load_mode_config_spec (registered as declared).",
+    "C13": "Round 4: the whole public surface of the timer device: add, subtract, jump, reset, restart, timer_complete "
+           "(no longer assumed), pause with a duration, set_tick_interval, change_tick_interval.",
+    "C14": "Round 4: _process_sa SA2 (the switch walk is unrestricted), FastSerialCommunicator._socket_reader (every "
+           "chunk read reaches the parser).",
+    "C15": "Round 4: load_machine_vars P3c (every restored value is announced; bounded).",
+    "C16": "Round 4: load_machine_vars P3c (C15) re-checked.",
+    "C17": "Round 4: ShowController.create_show_config (explicit settings kept, sync_ms 0 included), "
+           "ShowPool.play_with_config (every argument forwarded).",
+    "C18": "Round 4: device_removed_from_mode of Counter / Accrual / Sequence (own timers left alone), "
+           "Sequence.setup_event_handlers also found when pulled up into the base class.",
+    "C20": "Round 4: EventManager.remove_handler (C01) and SwitchController.process_switch_obj (C03) re-checked.",
+}
+
+
 def main():
     props = [json.loads(l) for l in open("properties.jsonl")]
     checks = []
@@ -428,6 +460,8 @@ def main():
                     c["note"] = c["note"] + " " + ADDED[pid][1]
             if pid in ADDED3:
                 c["text"] = c["text"] + " " + ADDED3[pid]
+            if pid in ADDED4:
+                c["text"] = c["text"] + " " + ADDED4[pid]
             checks.append({
                 "property_id": pid,
                 "quick_cmd": "./check %s --tier quick" % pid,
